@@ -33,7 +33,11 @@ def run_solver(solver, order, L, state_kw, H, nm, obs_specs, T=0.2, dt=0.05, num
     from mqt.yaqs.core.data_structures.networks import MPS
     from mqt.yaqs.core.data_structures.simulation_parameters import AnalogSimParams, Observable
 
-    obs = [Observable(n, s) for n, s in obs_specs]
+    from mqt.yaqs.core.libraries.gate_library import BaseGate
+
+    # two-letter names of two different Paulis ("xz", ...) are built from their 4x4 matrix (the library names only xx, yy, zz)
+    obs = [Observable(BaseGate(np.kron(dense.PAULI[n[0]], dense.PAULI[n[1]])), s) if len(n) == 2 and n[0] != n[1] and set(n) <= set("xyz")
+           else Observable(n, s) for n, s in obs_specs]
     p = AnalogSimParams(obs, elapsed_time=T, dt=dt, order=order, solver=solver, sample_timesteps=True, show_progress=False,
                         threshold=1e-13, num_traj=num_traj)
     with common.time_limit(200):
@@ -47,6 +51,7 @@ def correspond(ctx):
     from mqt.yaqs.core.data_structures.simulation_parameters import AnalogSimParams, Observable
 
     ctx.rules.append(RULE)
+    liouvillian_correspondence(ctx)
     cases, exprs, impl = [], [], []
     lengths = (2, 3) if ctx.quick else (2, 3, 4)
     for L in lengths:
@@ -149,7 +154,7 @@ def evolve_oracle(args):
         H, hd = MPO.heisenberg(L, args["J"], 0.5 * args["J"], 0.3, args["g"]), dense.heisenberg(L, args["J"], 0.5 * args["J"], 0.3, args["g"])
     procs = args.get("procs") or []
     nm = NoiseModel([dict(p) for p in procs]) if procs else None
-    specs = [(p, i) for i in range(L) for p in "xyz"] + [(pp, [i, i + 1]) for i in range(L - 1) for pp in ("zz", "xx")]
+    specs = [(p, i) for i in range(L) for p in "xyz"] + [(pp, [i, i + 1]) for i in range(L - 1) for pp in ("zz", "xx", ("xz", "yx", "zy")[i % 3])]
     T, dt = 0.2, 0.02
     ntraj = 1
     if procs and solver != "Lindblad":
@@ -180,6 +185,75 @@ def evolve_oracle(args):
     return None
 
 
+def liouvillian_correspondence(ctx):
+    """The generator the Lindblad back-end integrates (its right-hand side applied to every matrix unit, the ODE solver replaced by a
+    recorder) vs the dense master equation -i[H,.] + sum_k gamma_k (L_k . L_k^+ - 1/2 {L_k^+ L_k, .}) with every listed process on ITS
+    sites with ITS strength: random lists with switched-off (strength 0) entries at any position, repeated processes, adjacent and
+    distant pairs."""
+    import mqt.yaqs.analog.lindblad as Lb
+    from mqt.yaqs.core.data_structures.networks import MPO, MPS
+    from mqt.yaqs.core.data_structures.noise_model import NoiseModel
+    from mqt.yaqs.core.data_structures.simulation_parameters import AnalogSimParams, Observable
+
+    rng = ctx.rng
+    for k in range(ctx.scale(24, 300)):
+        L = int(rng.integers(2, 4))
+        names1 = ["lowering", "raising", "pauli_x", "pauli_y", "pauli_z"]
+        names2 = ["crosstalk_xy", "crosstalk_zx", "crosstalk_yy", "crosstalk_xz"]
+        procs = []
+        for _ in range(int(rng.integers(1, 5))):
+            if rng.random() < 0.65 or L < 2:
+                procs.append({"name": str(rng.choice(names1)), "sites": [int(rng.integers(0, L))], "strength": float(rng.uniform(0.1, 0.9))})
+            else:
+                a = int(rng.integers(0, L - 1))
+                b = a + 1 if (L == 2 or rng.random() < 0.6) else int(rng.integers(a + 1, L))
+                procs.append({"name": str(rng.choice(names2)), "sites": [a, b], "strength": float(rng.uniform(0.1, 0.9))})
+        zero_at = None
+        if k % 2 == 0:  # a switched-off entry somewhere in the list (first, middle or last)
+            zero_at = int(rng.integers(0, len(procs) + 1))
+            procs.insert(zero_at, {"name": str(rng.choice(names1)), "sites": [int(rng.integers(0, L))], "strength": 0.0})
+        J, g = float(rng.uniform(0.4, 1.2)), float(rng.uniform(0.3, 0.9))
+        H, hd = MPO.ising(L, J, g), dense.ising(L, J, g)
+        par = AnalogSimParams([Observable("z", 0)], elapsed_time=0.1, dt=0.1, solver="Lindblad", show_progress=False)
+        seen = {}
+        saved = Lb.solve_ivp
+
+        class Res:
+            success, message = True, "recorder"
+
+        def fake(rhs, t_span, y0, t_eval=None, **kw):
+            seen["rhs"], seen["y0"] = rhs, np.asarray(y0)
+            r = Res()
+            r.t = np.asarray(t_eval, dtype=float)
+            r.y = np.stack([np.asarray(y0)] * len(r.t), axis=1)
+            return r
+
+        Lb.solve_ivp = fake
+        try:
+            Lb.lindblad((0, MPS(L, state="zeros"), NoiseModel([dict(p) for p in procs]), par, H))
+        except Exception as e:  # noqa: BLE001
+            ctx.mismatch("Lindblad generator vs dense master equation", {"L": L, "procs": procs}, repr(e), "-", key="liouvillian")
+            continue
+        finally:
+            Lb.solve_ivp = saved
+        d = 2**L
+        cols = []
+        for j in range(d * d):
+            e = np.zeros(d * d, dtype=complex)
+            e[j] = 1.0
+            cols.append(np.asarray(seen["rhs"](0.0, e)).reshape(-1))
+        got = np.stack(cols, axis=1)
+        ls = [np.sqrt(p["strength"]) * lottery.dense_op(p, L) for p in procs]
+        want = dense.lindblad_rhs(hd, ls)
+        ctx.case(nontrivial_key=("liouvillian", k), validated=True,
+                 sample={"L": L, "processes": [(p["name"], p["sites"], round(p["strength"], 3)) for p in procs]} if k < 2 else None)
+        ctx.count("liouvillian_with_switched_off_entry" if zero_at is not None else "liouvillian")
+        if got.shape != want.shape or not np.allclose(got, want, atol=1e-10):
+            ctx.mismatch("Lindblad generator (right-hand side on matrix units) vs the dense master equation of the listed processes",
+                         {"L": L, "J": J, "g": g, "procs": procs}, float(np.max(np.abs(got - want))) if got.shape == want.shape else list(got.shape), 0.0,
+                         key="liouvillian")
+
+
 def search(ctx):
     states = [dict(state="basis", basis_string="100"), dict(state="Neel"), dict(state="wall"), dict(state="basis", basis_string="0110"),
               dict(state="x+"), dict(state="basis", basis_string="10"), dict(state="y+"), dict(state="y-")]
@@ -189,11 +263,13 @@ def search(ctx):
         L = len(kw.get("basis_string", "")) or int(ctx.rng.integers(3, 5))
         solver, order = SOLVERS[k % 4]
         procs = []
-        if solver == "Lindblad" and k % 2 == 0:
+        if solver == "Lindblad" and (k // 4) % 3 != 2:
             procs = [{"name": str(ctx.rng.choice(["lowering", "pauli_z", "raising"])), "sites": [int(ctx.rng.integers(0, L))], "strength": 0.4}]
-            if k % 4 == 0 and L >= 3:  # an adjacent two-site process on an off-centre bond
+            if (k // 4) % 2 == 0 and L >= 3:  # an adjacent two-site process on an off-centre bond
                 s0 = int(ctx.rng.choice([0, L - 2]))
                 procs.append({"name": str(ctx.rng.choice(["crosstalk_xz", "crosstalk_zy", "crosstalk_xx"])), "sites": [s0, s0 + 1], "strength": 0.5})
+        if procs and (k // 4) % 3 == 0:  # a switched-off channel listed first, on another site than the next entry
+            procs.insert(0, {"name": "lowering", "sites": [(procs[0]["sites"][0] + 1) % L], "strength": 0.0})
         plan.append(dict(L=L, solver=solver, order=order, state=kw, ham=str(ctx.rng.choice(["ising", "heisenberg", "inhomogeneous", "inhomogeneous"])), hseed=int(ctx.rng.integers(0, 10**6)),
                          J=float(ctx.rng.uniform(0.5, 1.2)), g=float(ctx.rng.uniform(0.3, 0.9)), procs=procs))
     for a in plan:
@@ -205,7 +281,7 @@ def search(ctx):
         except Exception as e:  # noqa: BLE001
             why = f"simulator.run raised {type(e).__name__}: {e}"
         ctx.case(nontrivial_key=("evolve", str(a["state"]), a["solver"], a["order"], a["ham"]) if a["state"].get("state") != "x+" else None)
-        ctx.count("evolve_" + a["solver"])
+        ctx.count("evolve_" + a["solver"] + ("_noisy" if a.get("procs") else ""))
         if why:
             ctx.violation(f"evolve:{a['solver']}", why, {"oracle": "evolve", "args": a})
 
